@@ -348,7 +348,8 @@ Record lightblock := mkLB {
   lb_apphash : bytes; lb_results : bytes;
   lb_blockid : bytes;      (* Commit.BlockID *)
   lb_commit : bytes;       (* the commit *)
-  lb_vals : bytes }.       (* ValidatorSet *)
+  lb_vals : bytes;         (* ValidatorSet *)
+  lb_conshash : bytes }.   (* Header.ConsensusHash *)
 
 Inductive res (A : Type) := ROk (a : A) | RFail | RNoWitnesses.
 Arguments ROk {A}. Arguments RFail {A}. Arguments RNoWitnesses {A}.
@@ -402,6 +403,36 @@ Definition lc_state (lc : Z -> res lightblock) (cp : Z -> option bytes) (initial
 
 Definition lc_provider (lc : Z -> res lightblock) (cp : Z -> option bytes) (initial : Z) : provider :=
   mkProv (lc_apphash lc) (lc_state lc cp initial) (lc_commit lc).
+
+(* light/rpc Client.ConsensusParams(&height), the [cp] of State(): [rpc req] is what the
+   (untrusted) RPC server of the primary answers to consensus_params(req): None = transport
+   error or params refused by ValidateConsensusParams, Some (label, ph) = ResultConsensusParams
+   with BlockHeight = label and params whose HashConsensusParams is ph (consensus params are
+   identified by that hash, which covers Block.MaxBytes and Block.MaxGas only: the other fields
+   of the params are not committed to by any header and are taken from the server as they come).
+   The client checks label > 0, has the light client verify the block at height LABEL
+   (updateLightClientIfNeededTo(&res.BlockHeight)) and compares ph with that header's
+   ConsensusHash.  The requested height is not compared with the label. *)
+Definition lrpc_params (lc : Z -> res lightblock) (rpc : Z -> option (Z * bytes)) (req : Z) : option bytes :=
+  match rpc req with
+  | None => None
+  | Some (label, ph) =>
+    if label <=? 0 then None
+    else match lc label with
+         | ROk l => if bytes_eqb ph (lb_conshash l) then Some ph else None
+         | _ => None
+         end
+  end.
+
+(* State() with the F66 repair (fixes/F66-statesync-params-of-requested-height.diff): the params
+   the RPC client hands back are compared with the ConsensusHash of the light block h+1 that
+   State() verified itself *)
+Definition lc_state_fixed (lc : Z -> res lightblock) (cp : Z -> option bytes) (initial : Z) (h : Z) : res sstate :=
+  rbind (lc_state lc cp initial h) (fun st =>
+  match lc (to_int64 (u64 (h + 1))) with
+  | ROk cur => if bytes_eqb (st_params st) (lb_conshash cur) then ROk st else RFail
+  | _ => RFail
+  end).
 
 (* ------------------------------------------------------------------ syncer.go *)
 
